@@ -91,14 +91,17 @@ def gen_cases(ck):
     for mode in ("search",):
         for combo in COMBOS:
             cases.append(gen_config(rng, mode, combo))
-    n = 500 if ck.thorough else 170
+    n = 6000 if ck.thorough else 170
     for i in range(n):
         cases.append(gen_config(rng, big=(i % 12 == 0)))
     if ck.thorough:
         for combo in COMBOS:
-            c = gen_config(rng, "step", combo, big=True)
-            c.update(individuals=64, generations=3)
-            cases.append(c)
+            for ind, gens in ((64, 3), (48, 6), (33, 10)):
+                c = gen_config(rng, "step", combo, big=True)
+                c.update(individuals=ind, generations=gens, tournament=min(c["tournament"], ind))
+                if combo[1] in ("alps", "dealps"):
+                    c.update(layers=min(c["layers"], 3), age_gap=2)
+                cases.append(c)      # large populations, long histories
     return cases
 
 
@@ -260,6 +263,14 @@ def run(ck):
     res = vv.prove("Properties_C06", set())
     ck.add_proof(res)
     ck.add_proof(vv.prove("Refuted_C06", set()))
+    if ck.thorough:
+        # independent re-check of the compiled proofs (kernel-only checker)
+        with vv.Lock("coq"):
+            rc, out = vv.sh(["coqchk", "-silent", "-o", "-Q", ".", "VV", "VV.Props.Properties_C06",
+                             "VV.Props.Refuted_C06"], cwd=vv.COQ, timeout=900)
+        ck.coverage["coqchk"] = "ok" if rc == 0 else "FAILED"
+        if rc != 0:
+            ck.add_unshown("proof", "coqchk", out[-800:])
     ck.trusted += ["extraction: ExtrOcamlBasic only, no Extract Constant; ocaml/evo_driver.ml + zutil.ml "
                    "(parsing of traces, fitness comparison = std::lexicographical_compare on doubles, search for the "
                    "statistics-based decisions of after_generation)",
@@ -291,7 +302,7 @@ def run(ck):
                 t = gen_tune(ck.rng, ("src", strat), blank=True)
                 t.update(validator=v, rows=120)
                 tcases.append(t)      # the percentage / dss left open with the strategy that needs it
-        tcases += [gen_tune(ck.rng) for _ in range(3000 if ck.thorough else 400)]
+        tcases += [gen_tune(ck.rng) for _ in range(40000 if ck.thorough else 400)]
     # which tuning code does the tree have?  (environment::reconcile = repair of tune_valid_size_conflict)
     with open(os.path.join(L["snap"], "kernel", "search.tcc")) as f:
         recon = 1 if "reconcile(" in f.read() else 0
